@@ -6,7 +6,19 @@ pub fn gen_int(r: &mut Rng, k: IK) -> Val {
     let bits = k.bits();
     let mask: u128 = if bits == 128 { u128::MAX } else { (1u128 << bits) - 1 };
     // raw bit pattern, biased to varint and type boundaries
-    let pat: u128 = match r.below(10) {
+    let pat: u128 = match r.below(12) {
+        10 | 11 => {
+            // the limits of the narrower integer types (where a fast path for a smaller width would
+            // begin or end): +-2^b and neighbours, as a two's complement pattern of this width
+            let b = *r.pick(&[7u32, 8, 15, 16, 31, 32, 63, 64, 127]);
+            let base = if b >= 128 { 0 } else { 1u128 << b };
+            let v = match r.below(3) {
+                0 => base.wrapping_sub(1),
+                1 => base,
+                _ => base.wrapping_add(1),
+            };
+            if r.chance(1, 2) { v } else { v.wrapping_neg() }
+        }
         0 => 0,
         1 => 1,
         2 => mask,
